@@ -17,14 +17,14 @@ VAR_OUT = ['y', 'y1', 'z', 'f', 'yz']
 
 
 def gen_spec(rng, ncomp=(1, 4), coupled=None, groups=None, sizes=(1, 2, 3), implicit=True, promote=True,
-             nl_iters=None, sub_solvers=False):
+             nl_iters=None, sub_solvers=False, extra_kinds=(), group_names=None, sub_solver_prob=0.35):
     nc = rng.randint(*ncomp)
     if groups is None:
         groups = rng.random() < 0.6
     if coupled is None:
         coupled = nc >= 2 and rng.random() < 0.4
     n = rng.choice(sizes)
-    gnames = ['g1', 'g2', 'g10', 'sub']
+    gnames = list(group_names) if group_names else ['g1', 'g2', 'g10', 'sub']
     comps = []
     for k in range(nc):
         name = rng.choice(['c', 'd', 'comp', 'c1']) + str(k + 1)
@@ -42,11 +42,13 @@ def gen_spec(rng, ncomp=(1, 4), coupled=None, groups=None, sizes=(1, 2, 3), impl
         kind = 'expl'
         if implicit and rng.random() < 0.2:
             kind = 'impl'
+        elif extra_kinds and rng.random() < 0.45:
+            kind = rng.choice(extra_kinds)
         dy = [-2, -1, -0.5, 0.5, 1, 1.5, 2, 0.25]
         comp = {'path': path, 'kind': kind, 'n': n, 'ins': ins, 'outs': outs,
                 'c': [[rng.choice(dy) for _ in ins] for _ in outs],
                 'd': [rng.choice([0, 1, -1, 0.5, 3]) for _ in outs],
-                'q': [rng.choice([0, 0, 0.25, -0.125]) if kind == 'expl' else 0 for _ in outs],
+                'q': [rng.choice([0, 0, 0.25, -0.125]) if kind in ('expl', 'exec') else 0 for _ in outs],
                 'a': [rng.choice([1, 2, -2, 4]) for _ in outs],
                 'prom_in': [v for v in ins if promote and rng.random() < 0.3],
                 'prom_out': [v for v in outs if promote and rng.random() < 0.3]}
@@ -104,7 +106,7 @@ def gen_spec(rng, ncomp=(1, 4), coupled=None, groups=None, sizes=(1, 2, 3), impl
     if sub_solvers:
         gpaths = sorted({c['path'].rsplit('.', 1)[0] for c in comps if '.' in c['path']})
         for g in gpaths:
-            if rng.random() < 0.35:
+            if rng.random() < sub_solver_prob:
                 spec['solvers'][g] = {'nl': 'nlbgs', 'maxiter': rng.choice([2, 3, 11]), 'ln': 'direct'}
     if not coupled and any(c['kind'] == 'impl' for c in comps):
         pass    # implicit components provide solve_nonlinear; run-once is enough
@@ -236,7 +238,62 @@ def _classes():
                 for i, v in enumerate(s['ins']):
                     partials[o, v] = np.full(s['n'], -float(s['c'][j][i]))
 
-    return KExpl, KImpl
+    class KConst(om.ExplicitComponent):
+        """linear component whose partials are declared once as constants (no compute_partials)"""
+        def initialize(self):
+            self.options.declare('spec', recordable=False)
+
+        def setup(self):
+            s = self.options['spec']
+            n = s['n']
+            for v in s['ins']:
+                self.add_input(v, val=np.ones(n))
+            for v in s['outs']:
+                self.add_output(v, val=np.ones(n))
+            ar = np.arange(n)
+            for j, o in enumerate(s['outs']):
+                for i, v in enumerate(s['ins']):
+                    self.declare_partials(o, v, rows=ar, cols=ar, val=float(s['c'][j][i]))
+
+        def compute(self, inputs, outputs):
+            s = self.options['spec']
+            for j, o in enumerate(s['outs']):
+                acc = np.full(s['n'], float(s['d'][j]))
+                for i, v in enumerate(s['ins']):
+                    acc = acc + s['c'][j][i] * inputs[v]
+                outputs[o] = acc
+
+    class KLoadGroup(om.Group):
+        """a group that restores its own variables from a case (overrides System.load_case)"""
+        def load_case(self, case):
+            pre = self.pathname + '.'
+            root = self._problem_meta['model_ref']()
+            if case.inputs is not None:
+                for nm in case.inputs.absolute_names():
+                    if nm.startswith(pre):
+                        root.set_val(nm, case.inputs[nm])
+            if case.outputs is not None:
+                for nm in case.outputs.absolute_names():
+                    if nm.startswith(pre):
+                        root.set_val(nm, case.outputs[nm])
+
+    return KExpl, KImpl, KConst, KLoadGroup
+
+
+def _exec_comp(om, c):
+    """the same formula as KExpl, as an ExecComp"""
+    n = c['n']
+    exprs = []
+    for j, o in enumerate(c['outs']):
+        terms = ['%r' % float(c['d'][j])]
+        for i, v in enumerate(c['ins']):
+            terms.append('%r*%s' % (float(c['c'][j][i]), v))
+        if c['q'][j]:
+            terms.append('%r*%s**2' % (float(c['q'][j]), c['ins'][0]))
+        exprs.append('%s = %s' % (o, ' + '.join(terms)))
+    import numpy as np
+    kw = {v: {'shape': (n,), 'val': np.ones(n)} for v in c['ins'] + c['outs']}
+    return om.ExecComp(exprs, **kw)
 
 
 _CLS = None
@@ -248,22 +305,28 @@ def build(spec, driver=None):
     import openmdao.api as om
     if _CLS is None:
         _CLS = _classes()
-    KExpl, KImpl = _CLS
+    KExpl, KImpl, KConst, KLoadGroup = _CLS
     p = om.Problem()
     groups = {'': p.model}
+    overriding = set(spec.get('load_override', []))
 
     def group_of(path):
         if path in groups:
             return groups[path]
         parent, _, name = path.rpartition('.')
-        g = group_of(parent).add_subsystem(name, om.Group())
+        g = group_of(parent).add_subsystem(name, KLoadGroup() if path in overriding else om.Group())
         groups[path] = g
         return g
 
     for c in spec['comps']:
         parent, _, name = c['path'].rpartition('.')
-        cls = KImpl if c['kind'] == 'impl' else KExpl
-        group_of(parent).add_subsystem(name, cls(spec=c), promotes_inputs=list(c['prom_in']),
+        if c['kind'] == 'exec':
+            comp = _exec_comp(om, c)
+        elif c['kind'] == 'const':
+            comp = KConst(spec=c)
+        else:
+            comp = (KImpl if c['kind'] == 'impl' else KExpl)(spec=c)
+        group_of(parent).add_subsystem(name, comp, promotes_inputs=list(c['prom_in']),
                                        promotes_outputs=list(c['prom_out']))
     for src, tgt in spec['conns']:
         p.model.connect(src, tgt)
